@@ -5,6 +5,8 @@ SPECIFICATION Spec
 CONSTANTS
   MaxDim = 3
   MaxLen = 3
+  LongDim = 0
+  LongLen = 0
   MaxRounds = 1
   WrongSwap = FALSE
 INVARIANT MapPreserved
